@@ -105,10 +105,37 @@ class Partial(Closure):
         return self.inner(*(list(self.bound) + list(args)), **{**self.bound_kw, **kwargs})
 
 
+def operator_module(interp):
+    def getter_attr(*names):
+        def get(obj):
+            def one(n):
+                cur = obj
+                for part in n.split("."):
+                    if isinstance(cur, Record) and part in cur.fields:
+                        cur = cur.fields[part]
+                    else:
+                        raise Raised("AttributeError", (part,))
+                return cur
+            return one(names[0]) if len(names) == 1 else tuple(one(n) for n in names)
+        return ("host", get)
+
+    def getter_item(*keys):
+        def get(obj):
+            try:
+                return obj[keys[0]] if len(keys) == 1 else tuple(obj[k] for k in keys)
+            except (KeyError, IndexError, TypeError) as e:
+                raise Raised(type(e).__name__, e.args)
+        return ("host", get)
+    return ModuleRef("operator", attrs={"attrgetter": ("host", getter_attr), "itemgetter": ("host", getter_item)})
+
+
 def functools_module():
     def partial(f, *a, **k):
         if isinstance(f, Closure):
             return Partial(f, a, k)
+        if isinstance(f, tuple) and f and f[0] == "host":
+            inner = f[1]
+            return ("host", lambda *a2, **k2: inner(*a, *a2, **{**k, **k2}))
         raise AnalysisError("functools.partial over something that is not a function of the analysed program")
     return ModuleRef("functools", attrs={"partial": ("host", partial)})
 
@@ -167,6 +194,25 @@ class Interp:
                     elif a.name == "json":
                         import json as _json
                         self.globals[nm] = ModuleRef("json", attrs={"dumps": ("host", _json.dumps), "loads": ("host", _json.loads)})
+                    elif a.name == "operator":
+                        self.globals[nm] = operator_module(self)
+                    elif a.name == "types":
+                        self.globals[nm] = ModuleRef("types", attrs={"MappingProxyType": ("host", lambda d: d)})
+            elif isinstance(st, ast.ImportFrom) and st.level == 0:
+                for a in st.names:
+                    nm = a.asname or a.name
+                    if st.module == "types" and a.name == "MappingProxyType":
+                        self.globals[nm] = ("host", lambda d: d)       # a read-only view: same contents
+                    elif st.module == "functools" and a.name in ("partial",):
+                        self.globals[nm] = functools_module().attrs[a.name]
+                    elif st.module == "itertools":
+                        m_ = _itertools_module(self)
+                        if a.name in m_.attrs:
+                            self.globals[nm] = m_.attrs[a.name]
+                    elif st.module == "operator":
+                        m_ = operator_module(self)
+                        if a.name in m_.attrs:
+                            self.globals[nm] = m_.attrs[a.name]
             elif isinstance(st, (ast.Assign, ast.AnnAssign)):
                 tgt = st.targets[0] if isinstance(st, ast.Assign) else st.target
                 if not isinstance(tgt, ast.Name) or st.value is None:
@@ -793,6 +839,8 @@ class Interp:
             raise AnalysisError(f"{self.name}: {obj.name}.{a} cannot be folded")
         if isinstance(obj, str) and a in STR_METHODS:
             return ("strmethod", obj, a)
+        if obj is str and a in STR_METHODS:
+            return ("host", lambda s_, *aa, _a=a: getattr(s_, _a)(*aa))
         if isinstance(obj, _re.Pattern) and a == "sub":
             return ("patsub", obj)
         if isinstance(obj, dict) and a in ("get", "items", "keys", "values", "setdefault", "update", "pop"):
@@ -839,7 +887,7 @@ class Interp:
             if g.is_async:
                 raise AnalysisError("async comprehension")
             for x in self.iterate(self.eval(g.iter, env)):
-                e2 = {"__parent__": env}
+                e2 = {"__parent__": env, "__comp__": True}
                 self.assign(g.target, x, e2)
                 if all(self.truth(self.eval(c, e2)) for c in g.ifs):
                     rec(i + 1, e2)
@@ -850,7 +898,8 @@ class Interp:
         self._comp(n.generators, env, lambda e: out.append(self.eval(n.elt, e)))
         return out
 
-    e_GeneratorExp = e_ListComp
+    def e_GeneratorExp(self, n, env):
+        return EagerGen(self.e_ListComp(n, env))
 
     def e_SetComp(self, n, env):
         return set(self.e_ListComp(n, env))
@@ -878,6 +927,17 @@ class Interp:
 
     def e_Lambda(self, n, env):
         return Closure(n, env, self)
+
+    def e_NamedExpr(self, n, env):
+        v = self.eval(n.value, env)
+        # a walrus inside a comprehension binds in the enclosing function scope
+        e = env
+        while e is not None and e.get("__comp__") and e.get("__parent__") is not None:
+            e = e["__parent__"]
+        self.assign(n.target, v, e if e is not None else env)
+        if e is not env:
+            env[n.target.id] = v
+        return v
 
     def e_Call(self, n, env):
         f = self.eval(n.func, env)
@@ -1107,13 +1167,15 @@ def _is_format_operand(n, p, parents) -> bool:
             and isinstance(gp.left, (ast.Constant, ast.JoinedStr))
     if isinstance(p, ast.BinOp) and isinstance(p.op, ast.Mod) and p.right is n and isinstance(p.left, (ast.Constant, ast.JoinedStr)):
         return True
+    # "<template>".format(...) -- the template is a literal or a (module-level) name; the call is evaluated for a
+    # representative of every argument class anyway, so a template that is not a string shows up there
     if isinstance(p, ast.Call) and isinstance(p.func, ast.Attribute) and p.func.attr == "format" \
-            and isinstance(p.func.value, ast.Constant) and isinstance(p.func.value.value, str):
+            and isinstance(p.func.value, (ast.Constant, ast.Name)):
         return True
     if isinstance(p, ast.keyword):
         gp = parents.get(p)
         return isinstance(gp, ast.Call) and isinstance(gp.func, ast.Attribute) and gp.func.attr == "format" \
-            and isinstance(gp.func.value, ast.Constant)
+            and isinstance(gp.func.value, (ast.Constant, ast.Name))
     if isinstance(p, ast.Call) and _dotted(p.func) in ("str", "repr") and len(p.args) == 1 and p.args[0] is n:
         return True
     return False
